@@ -14,6 +14,7 @@ import (
 	"bytes"
 	"errors"
 	"fmt"
+	"slices"
 	"sort"
 	"strings"
 	"testing"
@@ -383,6 +384,13 @@ func (g *tyGen) union(depth int) *Ty {
 		if len(members) > 0 && rapid.IntRange(0, 3).Draw(g.t, "variant?") == 0 {
 			// a sibling wrapped in a name: same underlying type, ordered by the named-type rules
 			m = &Ty{K: "named", N: rapid.SampledFrom(g.names).Draw(g.t, "tname"), C: []*Ty{cloneTy(members[rapid.IntRange(0, len(members)-1).Draw(g.t, "sib")])}}
+		} else if len(members) > 0 && rapid.IntRange(0, 3).Draw(g.t, "twin?") == 0 {
+			// a sibling that differs only at its last position (last enum symbol, last field name, innermost last
+			// child): the members tie on everything the ordering looks at before that position
+			m = g.nearTwin(members[rapid.IntRange(0, len(members)-1).Draw(g.t, "sib")])
+			if m == nil {
+				m = g.draw(depth)
+			}
 		} else {
 			m = g.draw(depth)
 		}
@@ -403,6 +411,66 @@ func (g *tyGen) union(depth int) *Ty {
 		return g.leaf()
 	}
 	return &Ty{K: "union", C: members}
+}
+
+// nearTwin returns a copy of t that differs from it only at the last position of its structure, or nil.
+func (g *tyGen) nearTwin(t *Ty) *Ty {
+	c := cloneTy(t)
+	other := func(pool, used []string, label string) (string, bool) {
+		var free []string
+		for _, s := range pool {
+			if !slices.Contains(used, s) {
+				free = append(free, s)
+			}
+		}
+		if len(free) == 0 {
+			return "", false
+		}
+		return rapid.SampledFrom(free).Draw(g.t, label), true
+	}
+	switch t.K {
+	case "prim":
+		n, ok := other(commonPrims, []string{t.N}, "twinprim")
+		if !ok {
+			return nil
+		}
+		c.N = n
+		return c
+	case "enum":
+		if len(c.F) == 0 {
+			return nil
+		}
+		s, ok := other(enumSyms, c.F, "twinsym")
+		if !ok {
+			return nil
+		}
+		c.F[len(c.F)-1] = s
+		return c
+	case "rec":
+		if len(c.F) == 0 {
+			return nil
+		}
+		if rapid.Bool().Draw(g.t, "twinname?") {
+			s, ok := other(fieldNames, c.F, "twinfield")
+			if !ok {
+				return nil
+			}
+			c.F[len(c.F)-1] = s
+			return c
+		}
+		fallthrough
+	case "arr", "set", "map", "err", "named":
+		if len(c.C) == 0 {
+			return nil
+		}
+		k := g.nearTwin(c.C[len(c.C)-1])
+		if k == nil {
+			return nil
+		}
+		c.C[len(c.C)-1] = k
+		return c
+	}
+	return nil
 }
 
 var crossOps = []string{"translate", "translate", "translate", "byvalue", "byvalue", "byvalue", "byvalue_nc", "byvalue_nc",
